@@ -1,7 +1,12 @@
-import MJ.Model.Fuel
+import MJ.Model.FuelProg
 /-! Line driver for C13.
-Input (tab separated): `id  B1,B2,…  probeBudget  k1,k2,…  name name …`
-Output: `id  thr  total  B:status:consumed:remaining:executed,…  k:consumed:remaining,…` -/
+Input (tab separated):
+* `id  B1,B2,…  probeBudget  k1,k2,…  name name …` — an executed trace;
+  output `id  thr  total  B:status:consumed:remaining:executed,…  k:consumed:remaining,…`
+* `S  id  B1,B2,…  counts  fails  tokens` — a structured program (`MJ.Fuel.P`) with its context:
+  `counts` = `loopid:i.j:count;…`, `fails` = `failid:i.j;…`, `tokens` = prefix form
+  (`I name` | `F name id` | `L id nh ni nb nx names… body… E` | sequence); output
+  `id  thr  cost  B:outcome:consumed:remaining:executed,…  ok|fail  trace` -/
 open MJ MJ.Fuel
 
 def natList (s : String) : List Nat :=
@@ -18,8 +23,66 @@ def showProbe (B : Nat) (trace : List String) (k : Nat) : String :=
   let l := levelsAt B trace k
   s!"{k}:{l.1}:{l.2}"
 
+/-- `i.j.k` -/
+def pathOf (s : String) : List Nat :=
+  if s.isEmpty then [] else (s.splitOn ".").filterMap (·.toNat?)
+
+def ctxOf (counts fails : String) : Ctx :=
+  let cs : List (Nat × List Nat × Nat) := (counts.splitOn ";").filterMap fun e =>
+    match e.splitOn ":" with
+    | [a, b, c] => match a.toNat?, c.toNat? with
+      | some a, some c => some (a, pathOf b, c)
+      | _, _ => none
+    | _ => none
+  let fs : List (Nat × List Nat) := (fails.splitOn ";").filterMap fun e =>
+    match e.splitOn ":" with
+    | [a, b] => a.toNat?.map fun a => (a, pathOf b)
+    | _ => none
+  { count := fun id path => ((cs.find? fun x => x.1 == id && x.2.1 == path).map (·.2.2)).getD 0,
+    fails := fun id path => fs.any fun x => x.1 == id && x.2 == path }
+
+instance : Inhabited P := ⟨.skip⟩
+
+def seqOf : List P → P
+  | [] => .skip
+  | [p] => p
+  | p :: rest => .seq p (seqOf rest)
+
+/-- parse a sequence of program tokens up to `E` or the end -/
+partial def parseSeq (toks : List String) (acc : List P) : P × List String :=
+  match toks with
+  | [] => (seqOf acc.reverse, [])
+  | "E" :: rest => (seqOf acc.reverse, rest)
+  | "I" :: n :: rest => parseSeq rest (.instr n :: acc)
+  | "F" :: n :: id :: rest => parseSeq rest (.mayFail n (id.toNat?.getD 0) :: acc)
+  | "L" :: id :: nh :: ni :: nb :: nx :: rest =>
+    let nh := nh.toNat?.getD 0; let ni := ni.toNat?.getD 0; let nb := nb.toNat?.getD 0; let nx := nx.toNat?.getD 0
+    let head := rest.take nh; let rest := rest.drop nh
+    let iter := rest.take ni; let rest := rest.drop ni
+    let back := rest.take nb; let rest := rest.drop nb
+    let exit := rest.take nx; let rest := rest.drop nx
+    let (body, rest) := parseSeq rest []
+    parseSeq rest (.loop (id.toNat?.getD 0) head iter body back exit :: acc)
+  | _ :: rest => parseSeq rest acc
+
+def showProgRun (B : Nat) (c : Ctx) (p : P) : String :=
+  let r := runProg B c p
+  let st := match r.1 with
+    | .ok => "ok"
+    | .ownError => "ownError"
+    | .outOfFuel => "OutOfFuel"
+  s!"{B}:{st}:{r.2.tracker.consumed}:{r.2.tracker.remainingFuel}:{r.2.executed.length}"
+
 def handle (line : String) : String :=
   match line.splitOn "\t" with
+  | ["S", id, budgets, counts, fails, toks] =>
+    let c := ctxOf counts fails
+    let p := (parseSeq ((toks.splitOn " ").filter (· ≠ "")) []).1
+    let k := cost c [] p
+    let e := exec c [] p
+    let thr := if k.1 = 0 then 0 else k.1 + 1
+    let runs := ",".intercalate ((natList budgets).map (showProgRun · c p))
+    s!"{id}\t{thr}\t{k.1}\t{runs}\t{if e.2 then "ok" else "fail"}\t{" ".intercalate e.1}"
   | [id, budgets, pb, ks, names] =>
     let trace := (names.splitOn " ").filter (· ≠ "")
     let runs := ",".intercalate ((natList budgets).map (showRun · trace))
